@@ -767,12 +767,12 @@ func (r *runner) confirm(n *native) int {
 		if v.Status != "" {
 			continue
 		}
-		if confirmed >= 12 {
-			v.Status = "not replayed (12 violations already confirmed)"
+		if confirmed >= 5 {
+			v.Status = "not replayed (5 violations already confirmed)"
 			continue
 		}
-		if time.Since(tStart) > 6*time.Minute || n.runs-runs0 > 1500 {
-			v.Status = "unconfirmed" // confirmation budget spent (6 min / 1500 native runs)
+		if time.Since(tStart) > 3*time.Minute || n.runs-runs0 > 800 {
+			v.Status = "unconfirmed" // confirmation budget spent (3 min / 800 native runs)
 			continue
 		}
 		h := r.chk.Harnesses[v.H]
